@@ -153,6 +153,12 @@ class Core : public ResultCoreT<Type, Ret, E>, public FuncCore<Func> {
       return Done<SymmetricTransfer, true>(core.template MoveOrConst<!AsyncShared>());
     };
     if constexpr (IsRun(Type)) {
+      if (this->_self.caller == nullptr) {
+        // We are the not yet started head of a lazy chain, e.g. Task returned from a callback or awaited by a coroutine.
+        // caller is our continuation, not a completed predecessor, so start like detail::Start does
+        this->_executor->Submit(*this);
+        return Noop<SymmetricTransfer>();
+      }
       return async_done();
     } else {
       if constexpr (kAsync != AsyncType::None) {
